@@ -128,15 +128,23 @@ SmallProgOf(f, id) ==
                      \o SetToSeq({Mk(n, "sudo", 1) : n \in f[<<i, "sudo">>]})]]]
 SmallFs == TLCEval(SetToSeq([SmallSlots -> SmallChoice]))
 
+(* declaration-order twins (C14): interfaces listed in the opposite order, methods of every part reversed *)
+PermTwin(p) ==
+    LET n == Len(p.parts)
+        rev(ms) == [i \in 1..Len(ms) |-> ms[Len(ms) + 1 - i]]
+    IN [p EXCEPT !.id = p.id \o "p", !.family = "perm",
+                 !.parts = [i \in 1..n |-> IF i = n THEN [p.parts[n] EXCEPT !.methods = rev(p.parts[n].methods)]
+                                           ELSE [p.parts[n - i] EXCEPT !.methods = rev(p.parts[n - i].methods)]]]
+
 RawSeq ==      \* all programs of this instance, as a sequence
        [gi \in 1..Len(Groups) |-> CorpusProg(gi)]
     \o [i \in 1..Len(SmallFs) |-> SmallProgOf(SmallFs[i], "m" \o ToString(i))]
-    \o <<Shared1, Shared2>>
+    \o <<Shared1, Shared2, PermTwin(Shared1), PermTwin(CorpusProg(1))>>
 
 (* the table of elaborated programs: the static semantics applied once per program *)
 ElabSeq == TLCEval([i \in 1..Len(RawSeq) |-> Elab(RawSeq[i])])
 ProgTable == ElabSeq          \* program "ids" of the model are indices into this sequence
-CompiledIds == {i \in 1..Len(RawSeq) : RawSeq[i].family \in {"corpus", "shared"}}
+CompiledIds == {i \in 1..Len(RawSeq) : RawSeq[i].family \in {"corpus", "shared", "perm"}}
 
 (* ------------------------------------------------------------ documents *)
 KeyUniverse(q) == EWireUniverse(q) \cup EArgUniverse(q) \cup {"zz_unknown"}
